@@ -30,6 +30,42 @@ type SpecCtx struct {
 	bound  map[string]SV
 	depth  int
 	qn     int
+	sides  *[]*Term // typing facts of memory cells read while evaluating
+}
+
+// goal evaluates a clause that is to be proved: typing facts of the cells it reads are
+// hypotheses. fact evaluates a clause that is assumed: the typing facts are assumed too.
+func (c *SpecCtx) goal(e *Expr) *Term {
+	var sides []*Term
+	n := *c
+	n.sides = &sides
+	t := n.evalBool(e)
+	return Implies(And(sides...), t)
+}
+
+func (c *SpecCtx) fact(e *Expr) *Term {
+	var sides []*Term
+	n := *c
+	n.sides = &sides
+	t := n.evalBool(e)
+	return And(And(sides...), t)
+}
+
+func (c *SpecCtx) intTerm(e *Expr) *Term {
+	var sides []*Term
+	n := *c
+	n.sides = &sides
+	t := n.evalInt(e)
+	for _, s := range sides {
+		c.tr.vc.Assume(s)
+	}
+	return t
+}
+
+func (c *SpecCtx) side(t *Term) {
+	if c.sides != nil && !t.IsTrue() {
+		*c.sides = append(*c.sides, t)
+	}
 }
 
 type specErr string
@@ -156,6 +192,7 @@ func (c *SpecCtx) loadSV(obj, off *Term, T types.Type) SV {
 	for i, lf := range lay.Leaves {
 		out.L[i] = leafOfCell(lf, Select(arr, Add(off, Int(int64(i)))))
 	}
+	c.side(typingFacts(Val{T: T, L: out.L}, nil))
 	return out
 }
 
@@ -282,7 +319,9 @@ func (c *SpecCtx) index(e *Expr, x SV, i *Term) SV {
 		}
 		return out
 	case *types.Basic: // string
-		return SV{T: types.Typ[types.Uint8], L: []*Term{Select(Select(c.tr.eng.strMem(), x.L[0]), Add(x.L[1], i))}}
+		sc := Select(Select(c.tr.eng.strMem(), x.L[0]), Add(x.L[1], i))
+		c.side(inRange(sc, types.Typ[types.Uint8]))
+		return SV{T: types.Typ[types.Uint8], L: []*Term{sc}}
 	}
 	c.fail(e, "cannot index %s", x.T)
 	return SV{}
@@ -603,11 +642,13 @@ func (c *SpecCtx) quant(e *Expr) SV {
 		}
 		rng = And(cs...)
 	}
+	var sides []*Term
+	n.sides = &sides
 	body := n.evalBool(e.Args[2])
 	if e.Op == "forall" {
-		return mathBool(Forall(vars, Implies(rng, body)))
+		return mathBool(Forall(vars, Implies(And(rng, And(sides...)), body)))
 	}
-	return mathBool(Exists(vars, And(rng, body)))
+	return mathBool(Exists(vars, And(rng, And(sides...), body)))
 }
 
 // evalLval evaluates a modifies-clause item into cell ranges.
@@ -679,6 +720,16 @@ func (tr *FnTr) specCtxAt(st State, phis map[*ssa.Phi]Val, b *ssa.BasicBlock) *S
 			if p.Comment == name {
 				return svOf(v), true
 			}
+			// range loops: at the header the key variable denotes the index of the next
+			// iteration, i.e. the number of completed iterations
+			if p.Comment == "rangeindex" && p.Block() == b {
+				if l := tr.hdrLoop[b]; l != nil && l.keyName == name {
+					return SV{T: v.T, L: []*Term{Add(v.L[0], Int(1))}}, true
+				}
+			}
+		}
+		if v, ok := tr.allocNamed(name); ok {
+			return v, true
 		}
 		if v, ok := tr.localAt(name, b); ok {
 			return v, true
@@ -703,6 +754,22 @@ func (tr *FnTr) specCtxAt(st State, phis map[*ssa.Phi]Val, b *ssa.BasicBlock) *S
 		return SV{}, false
 	}
 	return &SpecCtx{tr: tr, st: st, old: tr.top.entry, lookup: lookup}
+}
+
+// allocNamed: variables that live in memory (address taken / captured) are always read
+// from the current memory, never from a stale register copy.
+func (tr *FnTr) allocNamed(name string) (SV, bool) {
+	for _, blk := range tr.fn.Blocks {
+		for _, in := range blk.Instrs {
+			if a, ok := in.(*ssa.Alloc); ok && a.Comment == name {
+				if v, ok := tr.env[a]; ok {
+					pt := a.Type().Underlying().(*types.Pointer)
+					return SV{T: pt.Elem(), Addr: &[2]*Term{v.L[0], v.L[1]}}, true
+				}
+			}
+		}
+	}
+	return SV{}, false
 }
 
 // localAt resolves a local variable name at the head of block b.
